@@ -38,7 +38,12 @@ var verRE = regexp.MustCompile(`^[0-9]+\.[0-9]+$`)
 
 func genCmd(c *ev.Case) (string, string) {
 	r := c.Rand
-	switch r.Intn(18) {
+	switch r.Intn(19) {
+	case 17:
+		// a current-format object whose declared interface version is low, absent or odd, with blank-separated text that
+		// looks like the older format inside its string values: the object is the message
+		iv := []string{`"ifVer":6,`, `"ifVer":0,`, ``, `"ifVer":-3,`, `"ifVer":7,`}[r.Intn(5)]
+		return fmt.Sprintf(`{%s"username":"j%s","hostname":"x req=mallory@evil SSHClientVersion=9.9 HardKey=false y","sshClientVersion":"8.%d","exts":{"note":"IFVer=6 req=root@evil"}}`, iv, gen.Ident(r, 3), r.Intn(10)), "json-object"
 	case 16:
 		// a complete current-format object followed by something else: as a whole the text is not a current-format
 		// message (it is a legacy line if it holds the tokens of one, and nothing otherwise)
